@@ -108,9 +108,11 @@ def main():
         keep = []
         for c in cases:
             s = c['scn']
-            core = (not s['enc'] and s['binding'] == 'post') or s['endpoint'] != 'configured' or s['binding'] == 'artifact' or s['conf2'] != 'absent' or s['sameFrom'] or s['mtype'] == 'attribute'
+            special = s['endpoint'] != 'configured' or s['binding'] == 'artifact' or s['conf2'] != 'absent' or s['sameFrom'] or s['mtype'] == 'attribute'
+            core = not s['enc'] and s['binding'] == 'post'
             decided = c['mustAccept'] or c['mustReject']
-            if (core and decided and chk.rng.random() < 0.5) or chk.rng.random() < 0.06:
+            # the small special slices entirely, half of the decided plain/POST product, a seeded sample of the rest
+            if (special and decided) or (core and decided and chk.rng.random() < 0.5) or chk.rng.random() < 0.06:
                 keep.append(c)
         cases = keep
     nacc = 0
